@@ -140,23 +140,23 @@ func c01RunMode(t *testing.T, p c01Plan, mode string) (res vfResult) {
 		}
 		if p.Kind == "conflict" {
 			w.target("other0:80")
-			if err := r.DeployService("other", []string{"other0:80"}, opts, to, 5*time.Second, time.Second); err != nil {
+			if err := vfDeploy(r, "other", []string{"other0:80"}, opts, to, 5*time.Second, time.Second); err != nil {
 				res.failf("setup-failed", "setup deploy of the host's owner failed: %v", err)
 				return
 			}
 		} else if p.Kind != "new" {
-			if err := r.DeployService("svc", oldNames, opts, to, 5*time.Second, time.Second); err != nil {
+			if err := vfDeploy(r, "svc", oldNames, opts, to, 5*time.Second, time.Second); err != nil {
 				res.failf("setup-failed", "setup deploy failed: %v", err)
 				return
 			}
 			if p.Kind == "rollout" && p.OldRollout {
 				w.target("oldr0:80")
 				oldRollout = []string{"oldr0:80"}
-				if err := r.SetRolloutTargets("svc", oldRollout, 5*time.Second, time.Second); err != nil {
+				if err := vfRolloutDeploy(r, "svc", oldRollout, 5*time.Second, time.Second); err != nil {
 					res.failf("setup-failed", "setup rollout deploy failed: %v", err)
 					return
 				}
-				if err := r.SetRolloutSplit("svc", 100, nil); err != nil {
+				if err := vfRolloutSet(r, "svc", 100, nil); err != nil {
 					res.failf("setup-failed", "setup rollout set failed: %v", err)
 					return
 				}
@@ -177,10 +177,10 @@ func c01RunMode(t *testing.T, p c01Plan, mode string) (res vfResult) {
 		var cmd *vfPendingCmd
 		if p.Kind == "rollout" {
 			cmd = w.goCmd(func() error {
-				return r.SetRolloutTargets("svc", newNames, vfMs(p.DeployMs), vfMs(p.DrainMs))
+				return vfRolloutDeploy(r, "svc", newNames, vfMs(p.DeployMs), vfMs(p.DrainMs))
 			})
 		} else {
-			cmd = w.goCmd(func() error { return r.DeployService("svc", newNames, opts, to, vfMs(p.DeployMs), vfMs(p.DrainMs)) })
+			cmd = w.goCmd(func() error { return vfDeploy(r, "svc", newNames, opts, to, vfMs(p.DeployMs), vfMs(p.DrainMs)) })
 		}
 		// client requests at their instants
 		pend := make([]*vfPending, len(p.Reqs))
